@@ -1,10 +1,11 @@
 import Driver.Util
 open Lean Replicat
-namespace Driver
-
+namespace Driver.HFormat
 /-- requests `format.*` -/
 def handleFormat (op : String) (j : Json) : Except String Json := do
   match op with
   | _ => throw s!"unknown op {op}"
 
-end Driver
+end Driver.HFormat
+
+def Driver.handleFormat := Driver.HFormat.handleFormat
